@@ -315,12 +315,12 @@ type fleetFailure struct {
 	termNth   int // -1 none
 }
 
-func runFleetFailure(rt *rapid.T, col interface{ Eval(int) }, size int, cfg cloudprovider.NodeGroupConfig, zones string, split, page int, f fleetFailure) (es []sim.Entry, fleetE *sim.Entry, err error, exited bool) {
+func runFleetFailure(rt *rapid.T, col interface{ Eval(int) }, size int, cfg cloudprovider.NodeGroupConfig, zones string, split, page, stagger int, f fleetFailure) (es []sim.Entry, fleetE *sim.Entry, err error, exited bool) {
 	c, herr := newAWSCase(0, 3, int64(size)+10, cfg, zones)
 	if herr != nil {
 		rt.Fatalf("harness: %v", herr)
 	}
-	c.a.Fleet = sim.FleetPlan{Split: split, PageSize: page}
+	c.a.Fleet = sim.FleetPlan{Split: split, PageSize: page, StaggerMod: stagger}
 	var faults []sim.Fault
 	switch f.mode {
 	case "never-ready":
@@ -421,6 +421,7 @@ func TestC18(t *testing.T) {
 			cfg, zones := drawFleetCfg(rt, true)
 			split := rapid.IntRange(1, 3).Draw(rt, "split")
 			page := rapid.SampledFrom([]int{3, 50, 1000}).Draw(rt, "page")
+			stagger := rapid.SampledFrom([]int{0, 0, 2, 3, 5}).Draw(rt, "stagger") // instances become running at different polls
 			batches := (size + 19) / 20
 			var points []fleetFailure
 			for _, tn := range []int{-1, 0, 1, 2} {
@@ -434,7 +435,7 @@ func TestC18(t *testing.T) {
 				}
 			}
 			for _, f := range points {
-				es, fleetE, err, exited := runFleetFailure(rt, col, size, cfg, zones, split, page, f)
+				es, fleetE, err, exited := runFleetFailure(rt, col, size, cfg, zones, split, page, stagger, f)
 				if exited {
 					fail(rt, dumpPath(), "C18:exit-after-one-failure", "size %d failure %+v: escalator exited after a single failed fleet scale-up", size, f)
 				}
